@@ -427,6 +427,8 @@ class Sim:
             return False
         victim.killed = True
         victim.ready_at = self.now
+        victim.attrs["killed_at"] = victim.parked_at
+        victim.attrs["killed_started"] = victim.slices > 0 or victim.lines > 0 or bool(victim.parked_at)
         self.ev("kill", victim.name, why, victim.parked_at.split(":")[0] if victim.parked_at else
                 ("search" if victim.trace else "start"))
         return True
